@@ -347,6 +347,35 @@ class Interp:
                 return v if v is not None else ("classattr", ca[0].qualname, name)
         return ("attr", base, name)
 
+    def _isinstance(self, x, k):
+        """True / False when decided by the repository's class hierarchy, else None."""
+        if k[0] == "tuple":
+            rs = [self._isinstance(x, e) for e in k[1]]
+            if any(r is True for r in rs):
+                return True
+            return False if rs and all(r is False for r in rs) else None
+        if k[0] != "class":
+            return None
+        kc = self.facts.cls(k[1])
+        if kc is None:
+            return None
+        exact = x[0] == "ref" and isinstance(self.obj(x), HInst)
+        xc = self.type_of(x)
+        if xc is None:
+            return None
+        if kc in xc.mro():
+            return True
+        if exact:
+            return False
+        # x is some instance of xc (declared): unrelated classes have no common instances unless some class inherits both
+        if xc in kc.mro():
+            return None
+        for c in self.facts.all_classes():
+            m = c.mro()
+            if xc in m and kc in m:
+                return None
+        return False
+
     def _concrete_leaves(self, t) -> bool:
         """Every alternative of a decision term is a heap object or a constant (so attribute access can be decided per leaf)."""
         if t[0] == "cond":
@@ -965,6 +994,10 @@ class Interp:
         if name == "cast" and len(args) == 2:
             self._note_cast(n, args[1])
             return args[1]
+        if name == "isinstance" and len(args) == 2:
+            r = self._isinstance(args[0], args[1])
+            if r is not None:
+                return const(r)
         if name == "property" and len(args) >= 1:
             return ("propobj", args[0])
         if name == "getattr" and len(args) in (2, 3) and is_const(args[1]) and isinstance(args[1][1], str):
@@ -1566,6 +1599,19 @@ class Interp:
             return r
         return Outcome(live=after, ret=ret, retc=retc)
 
+    @classmethod
+    def _effect_free(cls, tree) -> bool:
+        """Evaluating the expression again changes nothing observable (allocations, reads and returns of inlined helpers)."""
+        for n in tree:
+            if n[0] in ("alloc", "mcall", "return"):
+                continue
+            if n[0] == "call" and cls._effect_free(n[2]):
+                continue
+            if n[0] == "if" and cls._effect_free(n[2]) and cls._effect_free(n[3]):
+                continue
+            return False
+        return True
+
     def _unroll_elems(self, it):
         """Elements of a small, statically known sequence (tuple display / list display / class- or module-level table)."""
         if it[0] == "tuple":
@@ -1653,7 +1699,7 @@ class Interp:
         if not has_continue and not s.orelse:
             probe: list = []
             it = self.ev(st.fork(), s.iter, probe)
-            elems = self._unroll_elems(it) if not probe or all(p[0] in ("alloc", "mcall") for p in probe) else None
+            elems = self._unroll_elems(it) if self._effect_free(probe) else None
             if elems is not None and 0 < len(elems) <= 16 and not any(n[0] == "mutate" and n[1] == it for n in tree):
                 self.ev(st, s.iter, tree)
                 return self._unrolled(s, st, tree, elems, 0)
@@ -1692,18 +1738,32 @@ class Interp:
         ob = self.exec_block(s.body, fb, tb)
         handlers = []
         outs = [ob]
+        # ``except (A, B) as e: body`` is ``except A as e: body`` followed by ``except B as e: body``
+        split = []
         for h in s.handlers:
+            if isinstance(h.type, ast.Tuple) and h.type.elts:
+                split.extend((h, t) for t in h.type.elts)
+            else:
+                split.append((h, h.type))
+        for h, htype in split:
             fh = st.fork()
             # a handler may start from any point of the body: attribute stores of the body are uncertain
             for k2, v2 in (ob.live.ext if ob.live else fb.ext).items():
                 if fh.ext.get(k2) != v2:
                     fh.ext[k2] = ("maybe", fh.ext.get(k2, ("attr", k2[0], k2[1])), v2)
             eid = next(self._exc)
+            tname = ast.unparse(htype) if htype is not None else None
             if h.name:
-                fh.env[h.name] = ("excvar", eid, ast.unparse(h.type) if h.type else "BaseException")
+                xv = ("excvar", eid, tname or "BaseException")
+                fh.env[h.name] = xv
+                act = self.stack[-1] if self.stack else None
+                if htype is not None and act is not None and act.fi is not None:
+                    ci = self.facts.annotation_class(act.fi.module, htype)
+                    if ci is not None:
+                        self.types.setdefault(xv, ci)
             th: list = []
             oh = self.exec_block(h.body, fh, th)
-            handlers.append((ast.unparse(h.type) if h.type else None, h.name, th, h.lineno, eid))
+            handlers.append((tname, h.name, th, h.lineno, eid))
             outs.append(oh)
         tree.append(("try", tb, handlers, s.lineno))
         res = Outcome()
